@@ -1,7 +1,7 @@
 (* Entry points of the model, addressed by name over the line protocol. *)
 From Coq Require Import String.
 From Coq Require Import NArith ZArith List Bool.
-From DI Require Import Result PyStr Val Codec Version Dpkg Deps Package Contents.
+From DI Require Import Result PyStr Val Codec Version Dpkg Deps Package Contents Deb822 Email Debcon.
 Import ListNotations.
 Open Scope N_scope.
 
@@ -208,6 +208,41 @@ Definition dispatch_pkg (fn : str) (args : list val) : option val :=
   | _ => None
   end.
 
+(* ---------- deb822 ---------- *)
+
+Definition VField (f : field) : val :=
+  VList [VStr (f_name f); VList (map (fun l => VPair (VN (ln_num l)) (VStr (ln_val l))) (f_lines f))].
+Definition VGroups (gs : list (list field)) : val := VList (map (fun g => VList (map VField g)) gs).
+
+Definition dispatch_deb822 (fn : str) (args : list val) : option val :=
+  match args with
+  | [VStr a] =>
+      if fn_is "groups" fn then Some (VRes VGroups (groups a))
+      else if fn_is "is_decl" fn then Some (VBool (is_decl a))
+      else if fn_is "is_cont" fn then Some (VBool (is_cont a))
+      else if fn_is "text_lines" fn then Some (VStrs (text_lines a))
+      else None
+  | _ => None
+  end.
+
+(* ---------- email / debcon ---------- *)
+
+Definition VDict (d : pydict str) : val := VList (map (fun kv => VPair (VStr (fst kv)) (VStr (snd kv))) d).
+
+Definition dispatch_debcon (fn : str) (args : list val) : option val :=
+  match args with
+  | [VStr a] =>
+      if fn_is "parse_message" fn then
+        Some (let m := parse_message a in
+              VList [VDict (m_items m); VBool (m_defects m); VBool (m_unixfrom m); VBool (m_container m);
+                     VStr (m_payload m)])
+      else if fn_is "split_in_paragraphs" fn then Some (VStrs (split_in_paragraphs a))
+      else if fn_is "get_paragraph_data" fn then Some (VDict (get_paragraph_data a))
+      else if fn_is "get_paragraphs_data" fn then Some (VList (map VDict (get_paragraphs_data a)))
+      else None
+  | _ => None
+  end.
+
 Definition dispatch_all (fn : str) (args : list val) : val :=
   match dispatch_version fn args with
   | Some v => v
@@ -217,7 +252,15 @@ Definition dispatch_all (fn : str) (args : list val) : val :=
       | None =>
           match dispatch_pkg fn args with
           | Some v => v
-          | None => dispatch fn args
+          | None =>
+              match dispatch_deb822 fn args with
+              | Some v => v
+              | None =>
+                  match dispatch_debcon fn args with
+                  | Some v => v
+                  | None => dispatch fn args
+                  end
+              end
           end
       end
   end.
